@@ -264,7 +264,7 @@ def table_object_stream() -> str:
             % (bridge.coq_str(ex), rows, orow))
 
 
-TABLES = [table_aggregate, table_ext, table_simplifier, table_util_ast, table_object_stream]
+TABLES = [table_aggregate, table_ext]   # the other tables are written to their own files by harness/tables/*.py
 
 
 def generate() -> str:
@@ -276,22 +276,47 @@ def generate() -> str:
     return "\n".join(parts)
 
 
-def main() -> int:
-    try:
-        text = generate()
-    except Unrecognised as e:
-        print("TABLES-UNRECOGNISED: %s" % e)
-        return 3
-    out = os.path.abspath(OUT)
+def _write(out: str, text: str) -> bool:
+    out = os.path.abspath(out)
     old = open(out).read() if os.path.exists(out) else None
     if old != text:
         os.makedirs(os.path.dirname(out), exist_ok=True)
         with open(out, "w") as f:
             f.write(text)
-        print("TABLES-CHANGED")
-    else:
-        print("TABLES-UNCHANGED")
-    return 0
+        return True
+    return False
+
+
+def main() -> int:
+    """Tables.v from the functions above, plus one generated file per plug-in module
+    harness/tables/<name>.py, which must define OUT (file name under coq/FA/Gen/) and
+    generate(repo_root) -> Coq text (raising sync_tables.Unrecognised to fail closed)."""
+    import importlib
+
+    rc = 0
+    try:
+        print("TABLES-CHANGED" if _write(OUT, generate()) else "TABLES-UNCHANGED")
+    except Unrecognised as e:
+        print("TABLES-UNRECOGNISED: %s" % e)
+        rc = 3
+    tdir = os.path.join(os.path.dirname(os.path.abspath(__file__)), "tables")
+    sys.modules.setdefault("sync_tables", sys.modules[__name__])
+    sys.path.insert(0, tdir)
+    for fn in sorted(os.listdir(tdir)) if os.path.isdir(tdir) else []:
+        if not fn.endswith(".py") or fn.startswith("_"):
+            continue
+        try:
+            mod = importlib.import_module(fn[:-3])
+            text = mod.generate(REPO)
+            ch = _write(os.path.join(os.path.dirname(OUT), mod.OUT), text)
+            print("%s-%s" % (mod.OUT, "CHANGED" if ch else "UNCHANGED"))
+        except Unrecognised as e:
+            print("TABLES-UNRECOGNISED: %s: %s" % (fn, e))
+            rc = 3
+        except Exception as e:  # fail closed on anything else as well
+            print("TABLES-UNRECOGNISED: %s: %s: %s" % (fn, type(e).__name__, e))
+            rc = 3
+    return rc
 
 
 if __name__ == "__main__":
